@@ -2,3 +2,8 @@
 import SimuVerif.Properties.C05
 import SimuVerif.Properties.C20
 import SimuVerif.Properties.C18
+import SimuVerif.Properties.C03
+import SimuVerif.Properties.C12
+import SimuVerif.Properties.C01
+import SimuVerif.Properties.C11
+import SimuVerif.Properties.C10
